@@ -421,6 +421,86 @@ def _one(item):
     return ("ok", dig.hexdigest()[:12])
 
 
+def _all_names(an, out):
+    """(name, kind) of an exported analysis and, recursively, of its inner analyses."""
+    k = an.WhichOneof("an")
+    body = getattr(an, k)
+    out.append(body.analysis_name)
+    for inner in getattr(body, "an", []):
+        _all_names(inner, out)
+    return out
+
+
+def _shared_unnamed(variant):
+    """One *unnamed* analysis object used in more than one place: at the top level and inside a sweep / Monte Carlo, at
+    different positions of two Sims, exported in a list, one after the other, or twice.  Generated names must be distinct
+    within every SimInput, every time."""
+    import hdl21 as h
+    import hdl21.sim as hs
+
+    try:
+        tb = mk_tb(h, hs, "ok", "Tb")
+        o = hs.Op()
+        t = hs.Tran(tstop=1)
+        if variant == "top_and_nested":
+            sims = [hs.Sim(tb=tb, attrs=[o, hs.SweepAnalysis(inner=[o], var="temp", sweep=hs.LinearSweep(0, 1, 1)), hs.MonteCarlo(inner=[o, t], npts=2), t])]
+        elif variant == "two_sims_positions":
+            sims = [hs.Sim(tb=tb, attrs=[t, o]), hs.Sim(tb=tb, attrs=[o, t, hs.Op()])]
+        else:  # "again": the same Sims exported a second time
+            sims = [hs.Sim(tb=tb, attrs=[hs.Op(), o, t]), hs.Sim(tb=tb, attrs=[o, hs.Op(), t])]
+        rounds = [hs.to_proto(sims)] + [[hs.to_proto(s_) for s_ in sims]] + ([hs.to_proto(sims)] if variant == "again" else [])
+        first = None
+        for inps in rounds:
+            allnames = []
+            for inp, s_ in zip(inps, sims):
+                names = []
+                for an in inp.an:
+                    _all_names(an, names)
+                if len(inp.an) != len([a for a in s_.attrs if isinstance(a, (hs.Op, hs.Tran, hs.SweepAnalysis, hs.MonteCarlo))]):
+                    return f"{len(inp.an)} analyses exported for {len(s_.attrs)} given"
+                if len(set(names)) != len(names) or not all(names):
+                    return f"analysis names of one SimInput are not distinct: {names}"
+                allnames.append(names)
+            if first is None:
+                first = allnames
+            elif allnames != first:
+                return f"exporting again names the analyses {allnames}, the first time {first}"
+        if o.name is not None or t.name is not None:
+            return f"exporting gave the designer's unnamed analysis objects the names {o.name!r}, {t.name!r}"
+    except Exception as e:
+        return "raised: " + short_exc(e)
+    return None
+
+
+def _same_named_tbs(order):
+    """Two different testbenches whose bare names coincide (one defined in a Python module, one through exec - as in a
+    notebook): both are in the package, and each SimInput's top is its own testbench."""
+    import hdl21 as h
+    import hdl21.sim as hs
+
+    try:
+        tb1 = mk_tb(h, hs, "ok", "Tb")
+        ns = {}
+        exec("import hdl21 as h\nimport hdl21.sim as hs\ntb = hs.tb('Tb')\ntb.only_here = h.Signal()\ntb.r = h.R(r=7)(p=tb.only_here, n=tb.VSS)\n", ns)
+        tb2 = ns["tb"]
+        s1, s2 = hs.Sim(tb=tb1, attrs=[hs.Op(name="one")]), hs.Sim(tb=tb2, attrs=[hs.Op(name="two")])
+        sims = [s1, s2] if order == "12" else [s2, s1]
+        inps = hs.to_proto(sims)
+        for inp, s_ in zip(inps, sims):
+            mods = [m for m in inp.pkg.modules if m.name == inp.top]
+            if len(mods) != 1:
+                return f"top {inp.top!r} names {len(mods)} modules of the package {[m.name for m in inp.pkg.modules]}"
+            has = any(sg.name == "only_here" for sg in mods[0].signals)
+            if has != (s_ is s2):
+                return f"the SimInput of the Sim on testbench {'2' if s_ is s2 else '1'} has the other testbench as its top ({inp.top!r})"
+        if inps[0].top == inps[1].top:
+            return f"two different testbenches exported under one name {inps[0].top!r}"
+    except Exception as e:
+        # refusing a list whose testbench names cannot be told apart is sound
+        return None if "name" in str(e).lower() or "conflict" in str(e).lower() else "raised: " + short_exc(e)
+    return None
+
+
 def _bad_tb(item):
     import hdl21 as h
     import hdl21.sim as hs
@@ -472,6 +552,18 @@ def run(ctx):
         ctx.fam("bad_testbenches", cases=1)
         if r:
             ctx.violation(dict(style="-", what=r, save_target=""), dict(bad_tb=list(v)), r)
+    for v in ("top_and_nested", "two_sims_positions", "again"):
+        r = _shared_unnamed(v)
+        ctx.count(states=1, transitions=3, traces_validated_against_impl=1)
+        ctx.fam("shared_unnamed_analysis", cases=1)
+        if r:
+            ctx.violation(dict(style="-", what="shared unnamed analysis: " + r[:40], save_target=""), dict(shared_unnamed=v), r)
+    for v in ("12", "21"):
+        r = _same_named_tbs(v)
+        ctx.count(states=1, transitions=2, traces_validated_against_impl=1)
+        ctx.fam("same_named_testbenches", cases=1)
+        if r:
+            ctx.violation(dict(style="-", what="same-named testbenches: " + r[:40], save_target=""), dict(same_named_tbs=v), r)
     ctx.sample(dict(attrs=sc[0], style="ctor", listing="single"))
     ctx.sample(dict(attrs=sc[-2], style="class", listing="distinct"))
     ctx.assume("SaveMode.SELECTED has no counterpart in the VLSIR schema and is not in the alphabet",
@@ -482,6 +574,10 @@ def replay(body):
     c = body["case"]
     if "bad_tb" in c:
         r = _bad_tb(c["bad_tb"])
+    elif "shared_unnamed" in c:
+        r = _shared_unnamed(c["shared_unnamed"])
+    elif "same_named_tbs" in c:
+        r = _same_named_tbs(c["same_named_tbs"])
     else:
         def tup(x):
             if isinstance(x, list):
